@@ -425,7 +425,11 @@ class Context:
         self.notes = []
         self.breaks = []
         self._driver = None
-        self.tmp = tempfile.mkdtemp(prefix="spowtd-verif-%s-" % prop)
+        self._tmp_root = tempfile.mkdtemp(prefix="spowtd-verif-%s-" % prop)
+        # data files live where users keep them: folders with blanks, '#', '?', percent signs and accents in their names
+        # (a path is not a URI and must not be read as one)
+        self.tmp = os.path.join(self._tmp_root, "Plot #2 (50%ab full?) \u00e9t\u00e9")
+        os.makedirs(self.tmp, exist_ok=True)
 
     # -- resources
     @property
@@ -437,7 +441,7 @@ class Context:
     def cleanup(self):
         if self._driver is not None:
             self._driver.close()
-        shutil.rmtree(self.tmp, ignore_errors=True)
+        shutil.rmtree(self._tmp_root, ignore_errors=True)
 
     def scratch(self, name):
         return os.path.join(self.tmp, name)
